@@ -33,7 +33,7 @@ TrBuild ==
     /\ UNCHANGED <<pi, st, sub, rep, out, fx>>
 
 (* ---- ids ------------------------------------------------------------- *)
-IdOfH(ids, h) == ids[CHOOSE i \in 1..Len(ids) : ids[i].h = h].id
+IdOfH(ids, h) == IF \E i \in 1..Len(ids) : ids[i].h = h THEN ids[CHOOSE i \in 1..Len(ids) : ids[i].h = h].id ELSE "?"
 TrReplyIds ==
     /\ IsEvent("ReplyIds") /\ st = "idle"
     /\ Chk("C08", "one_id_per_handler_name", l, {E.ids[i].h : i \in 1..Len(E.ids)} = AllHandlers(Pr) /\ Len(E.ids) = Cardinality(AllHandlers(Pr)))
